@@ -2004,9 +2004,11 @@ public:
       m_bool_to_refcsts.set(new_x, m_bool_to_refcsts.at(x));
       // REVISIT: do nothing in m_bool_to_bools is not precise but sound.
     } else {
-      if (m_unchanged_vars.at(x)) {
-	m_unchanged_vars += new_x;
-      }
+      // new_x is redefined: the constraints recorded before that
+      // mention new_x talk about its old value. (No recorded
+      // constraint talks about the new one, so there is nothing to
+      // gain from marking it as unchanged when x is.)
+      m_unchanged_vars -= new_x;
     }
   }
 }; // class flat_boolean_numerical_domain
